@@ -125,6 +125,11 @@ def worker(job):
                 args = [common.FIND] + lead + tail
                 stdin = None
             elif shape == "operands":
+                if rng.random() < 0.12:
+                    # an empty-string operand (find "$unset" ...) names nothing: diagnosed, non-zero exit, the others still walked
+                    roots = list(roots)
+                    roots.insert(rng.randrange(len(roots) + 1), "")
+                    st.inc("runs_with_an_empty_string_operand")
                 roots_eff = roots
                 # operands that would be read as part of the expression cannot be given directly
                 args = [common.FIND] + lead + roots + tail
@@ -216,5 +221,5 @@ def run(ctx):
     ctx.pmap(worker, [(k, n // nw, ctx.seed) for k in range(nw)])
     for key in ("shape:none", "shape:operands", "shape:files0-file", "shape:files0-stdin", "shape:equiv", "files0_no_final_nul", "files0_final_nul",
                 "files0_with_empty_names", "files0_with_dash_or_newline_names", "runs_with_missing_starting_point", "equivalence_pairs",
-                "option_terminator_and_no_starting_point"):
+                "option_terminator_and_no_starting_point", "runs_with_an_empty_string_operand"):
         ctx.require(key, 5)
